@@ -241,6 +241,13 @@ theorem world_semantics_extends (w : FragWorld) (ctx : Ctx) (e : C09.Expr) (h : 
     evalW w e ctx = evalTree (envOf ctx stdSem) e :=
   evalW_value_level w ctx e h
 
+/-- **The old theorem is an instance**: every tree of the 65-name fragment (`fragOk`) is a tree of the widened
+    fragment in EVERY world, with the same value – `print_compile_std_fragment` is `print_compile_std_fragment_world`
+    restricted to such trees.  (Side conditions look at their own arguments only: `PreLocal`, all 65 entries.) -/
+theorem fragment_world_contains (w : FragWorld) (e : C09.Expr) (h : fragOk e = true) :
+    fragOkW w e = true ∧ ∀ ctx, evalW w e ctx = evalTree (envOf ctx stdSem) e :=
+  ⟨(old_in_world w e h).2.2, fun ctx => evalW_value_level w ctx e (old_in_world w e h).1⟩
+
 /-- **What the binders mean**, as equations of `evalW` (any world, any argument trees): the helpers of C17's
     specification (`elems`, `pack`, `reduce`, `iterateWhile`) applied to the body's denotation in `bindCtx`. -/
 theorem binder_semantics (w : FragWorld) (ctx : Ctx) (arr body init start cond next : C09.Expr) :
